@@ -120,7 +120,7 @@ def mutate(rng, tree, label_space=50):
         kind = rng.choice(["empty_chance", "bad_weight", "probs_not_equal", "probs_rescaled", "forgotten_action",
                            "absent_minded", "distant_recall", "empty_player", "actions_differ", "actions_reordered",
                            "single_vs_multi", "multi_vs_single", "dup_action", "bad_payoff", "single_action_clash",
-                           "single_outcome_shared"])
+                           "single_outcome_shared", "all_negative"])
         slots = _slots(t)
         if not slots:
             # a bare terminal: wrap it
@@ -130,6 +130,12 @@ def mutate(rng, tree, label_space=50):
         pl = rng.choice([1, 2])
         if kind == "empty_chance":
             e[k] = {"c": rng.choice([None, L()]), "o": []}
+        elif kind == "all_negative":
+            ch = _nodes(t, lambda n: "o" in n and len(n["o"]) >= 2)
+            if ch:
+                node = rng.choice(ch)
+                for o in node["o"]:
+                    o[0] = f2b(-abs(b2f(o[0])))
         elif kind == "bad_weight":
             ch = _nodes(t, lambda n: "o" in n and n["o"])
             if ch:
